@@ -55,6 +55,7 @@ class Report:
         self.stats = {}
         self.t0 = time.time()
         self.rules_doc = {}
+        self.analysis_errors = []
 
     # ------------------------------------------------------------------
     def rule(self, rule, text):
